@@ -29,6 +29,7 @@ partial def treeOfJ : J → Option Tree
 
 partial def treeToJ : Tree → J
   | .leaf .none => .null
+  | .leaf .missing => .null
   | .leaf (.int i) => .int i
   | .leaf (.str s) => .str s
   | .dict f items => .obj [("k", .str "dict"), ("s", .bool f.sealed), ("w", .bool f.accW),
